@@ -22,7 +22,9 @@ func channelSet(st *simcore.Stream, kind string) []any {
 	var pool []any
 	switch kind {
 	case "string":
-		pool = []any{"", "a", "ab", "abc", "\x01a", "\x02ab", "\x00", "chan", "chan-", strings.Repeat("z", 127), strings.Repeat("z", 128), "\x80\x01", "a\x00b"}
+		pool = []any{"", "a", "ab", "abc", "\x01a", "\x02ab", "\x00", "chan", "chan-", strings.Repeat("z", 127), strings.Repeat("z", 128), "\x80\x01", "a\x00b",
+			// names whose length needs a two-byte prefix, differing in the last byte only
+			strings.Repeat("q", 199) + "x", strings.Repeat("q", 199) + "y", strings.Repeat("r", 300) + "a", strings.Repeat("r", 300) + "b"}
 	case "varint":
 		pool = []any{uint64(0), uint64(1), uint64(127), uint64(128), uint64(129), uint64(0x4081), uint64(1 << 14), uint64(1<<14 + 1), uint64(1 << 32), ^uint64(0), uint64(1 << 63)}
 	case "u16":
@@ -124,6 +126,8 @@ func RunC15(st *simcore.Stream, tier_, leg string, logOn bool, res *simcore.Resu
 		id int
 	}
 	frames := map[string]frameKey{}
+	emptyAsked, emptySeen := map[[2]int]int{}, map[[2]int]int{} // (channel index, node)
+	w.EmptyAskHook = func(ep Endpoint, ch int) { emptySeen[[2]int{ch, ep.Node()}]++ }
 	var told []*Entry
 	w.Net.OnTell = func(pk *simnet.Pkt) {
 		if base != "sim" {
@@ -204,7 +208,13 @@ func RunC15(st *simcore.Stream, tier_, leg string, logOn bool, res *simcore.Resu
 							res.Probe("told-to-node-without-channel")
 						}
 						ctx, cf := context.WithTimeout(context.Background(), time.Minute)
-						if e.HasAsk() && st.Bool(1, 2) {
+						if e.HasAsk() && mtu >= 0 && st.Bool(1, 8) {
+							// an Ask with an empty request: it cannot carry the ledger header, so the oracle
+							// is per channel: a handler of channel d sees an empty request only if one was asked on d
+							emptyAsked[[2]int{ci, to}]++
+							res.Probe("empty-ask")
+							e.Ask(ctx, make([]byte, 8), to, p2p.IOVec{})
+						} else if e.HasAsk() && mtu >= 64 && st.Bool(1, 2) {
 							w.AskOnce(ctx, e, to, ci, 12+st.Intn(40), mtu)
 						} else {
 							n := 12 + st.Intn(60)
@@ -223,7 +233,7 @@ func RunC15(st *simcore.Stream, tier_, leg string, logOn bool, res *simcore.Resu
 							en := w.Led.New(st, e.Node(), to, ci, n)
 							if n >= 12 && st.Bool(1, 3) {
 								// a payload that itself starts like a channel header
-								pre := simcore.Pick(st, []byte{0x01, 'a'}, []byte{0x00}, []byte{0x02, 'a', 'b'}, []byte{0x81, 0x01}, []byte{0, 0, 0, 1}, []byte{0xff, 0xff})
+								pre := simcore.Pick(st, []byte{0x01, 'a'}, []byte{0x00}, []byte{0x02, 'a', 'b'}, []byte{0x81, 0x01}, []byte{0, 0, 0, 1}, []byte{0xff, 0xff}, []byte{'x'}, []byte{'y'}, []byte{'z'}, []byte{'a'}, []byte{'b'})
 								if len(en.Payload)+len(pre) <= mtu {
 									w.Led.Prepend(en, pre)
 								}
@@ -251,6 +261,12 @@ func RunC15(st *simcore.Stream, tier_, leg string, logOn bool, res *simcore.Resu
 	fillStats(res, w)
 	dropClasses(res, c11Classes...)
 	dropClasses(res, "ask-success-without-handler")
+	for k, n := range emptySeen {
+		res.Checks++
+		if emptyAsked[k] == 0 {
+			res.Violate(res.Steps, "delivered-on-wrong-channel", "the ServeAsk handler of channel %d on node %d saw %d empty request(s) although no empty Ask was made on that channel to that node (empty Asks were made on other channels)", k[0], k[1], n).With("stack", leg).With("kind", "empty-ask")
+		}
+	}
 	res.ProbeN("frames-captured", len(frames))
 	res.Nontrivial = res.Probes["delivered"]+res.Probes["ask-served"] > 0 && len(chans) > 1 && w.Sim.Stats.MultiRunnable > 0
 	var sample []string
